@@ -169,6 +169,25 @@ Theorem C11_render_injective : forall p p', keys_dot_free p = true -> keys_dot_f
 Proof. exact render_injective. Qed.
 Print Assumptions C11_render_injective.
 
+(* ---- upload bytes: which bytes are "the file".  The clients hand the stream to httpx, which rewinds
+   a seekable stream: the part carries the whole content whatever the position at call time, and
+   re-sending the same Upload (retry, later call, other client) carries the same bytes again ---- *)
+Theorem C11_file_bytes_position_irrelevant : forall u n, up_seekable u = true ->
+  sent_bytes (set_pos n u) = up_content u.
+Proof. exact sent_bytes_position_irrelevant. Qed.
+Print Assumptions C11_file_bytes_position_irrelevant.
+
+Theorem C11_resend_same_bytes : forall n u, up_seekable u = true ->
+  Forall (fun b => b = up_content u) (send_n n u).
+Proof. exact send_n_all_whole. Qed.
+Print Assumptions C11_resend_same_bytes.
+
+(* a non-seekable stream can only be sent from where it stands; a second send finds it exhausted *)
+Theorem C11_nonseekable_resend_empty : forall u, up_seekable u = false ->
+  sent_bytes (after_send u) = EmptyString.
+Proof. exact nonseekable_resend_empty. Qed.
+Print Assumptions C11_nonseekable_resend_empty.
+
 (* ---- client state and schedules (by construction of the model; the tie compares vars(client)
    before/after and concurrent runs with solo runs) ---- *)
 Theorem C11_execute_stateless : forall s c, fst (execute s c) = s.
